@@ -70,6 +70,7 @@ type sporkFacts struct {
 }
 
 func runC17(r *simrt.Run) {
+	r.WatchLocks() // a lock of the node that is never released is a violation, not a hang
 	t := r.T
 	w := nomsim.NewWorld(r, nomsim.MockGenesis(nomsim.SporksDeclared))
 	w.EnforceReceiverRule(0)
